@@ -1,45 +1,54 @@
 import EdpVerif.Impl.Decode
 import EdpVerif.Impl.Control
 import EdpVerif.Impl.Frag
+import EdpVerif.Impl.DistHeader
 /-!
 Model of the receiving side of `crates/edp_client/src/connection.rs`, function by function:
 
-* `Connection::receive_message` — the per-frame dispatch (`recv`): tick skip, `131,69` fragment header, `131,70` fragment
-  continuation, `112` pass-through, `131,68` distribution header, anything else is `Error::Protocol` — over the two pieces
-  of state the function touches, the connection's atom cache and its fragment assembler (`St`);
+* `Connection::receive_message` — one iteration of its loop on a deframed body (`recv`): `cleanup_expired` on the
+  fragment assembler (once per frame, ticks included), tick skip, `131,69` fragment header, `131,70` fragment
+  continuation, `112` pass-through, `131,68` distribution header, anything else is `Error::Protocol` — over the two
+  pieces of state the function touches, the connection's atom cache and its fragment assembler (`St`);
 * `Connection::decode_complete_fragment` (`decodeCompleteFragment`);
 * `Connection::receive_message_from_read_half` (`recvRH`), the copy the node's receiver task runs: pass-through only,
-  stateless;
+  stateless (no atom cache, no assembler: every `131, …` frame is `Error::Protocol`);
 * the entry points of `crates/erltf/src/decoder.rs` the two functions call and that `Impl/Decode.lean` does not have:
-  `decode_with_trailing` (`decodeTrailing`), `parse_versioned_term_with_cache` + `parse_dist_header_with_cache`
-  (`parseDistHeader`), `decode_with_atom_cache` (`decodeWithAtomCache`), `decode_fragment_header`, `decode_fragment_cont`.
+  `decode_with_trailing` (`decodeTrailing`), `decode_fragment_header`, `decode_fragment_cont`.
+
+`AtomCache`, `parse_dist_header_with_cache` and `decode_with_atom_cache` are NOT modelled here: they are
+`DistHeader.Cache`, `DistHeader.parseHeader`/`parseRefs` and `DistHeader.decodeWithAtomCache` of `Impl/DistHeader.lean`
+(property C14) — the cache kept across messages is keyed by (segment index, internal index), a reference without text
+reads that slot, `ATOM_CACHE_REF i` is reference `i` of the header read last, and what a header wrote before an error
+stays written. `St.cache` is that model's cache.
 
 The frame itself (length prefix, body, tick = empty body, segmentation) is `Impl/Framing.lean` (C05): `recv` takes the
 deframed body. The term decoder is `Edp.dec` (`Impl/Decode.lean`), `ControlMessage::from_term` is `Control.parse`
-(`Impl/Control.lean`), the assembler is `Frag.Assembler` (`Impl/Frag.lean`); the connection never calls
-`cleanup_expired`, so the logical clock handed to the assembler is the constant 0.
+(`Impl/Control.lean`), the assembler is `Frag.Assembler` (`Impl/Frag.lean`).
 
-NOTE (to be unified): `parseDistHeader` is this file's own minimal model of `parse_dist_header_with_cache`; property C14
-models the same function in `Impl/DistHeader.lean`. Everything here lives in `Edp.Recv`.
+Time: `Instant::now()` is an explicit input. `recv` takes the reading `now` (milliseconds on a logical clock) of the
+iteration: `cleanup_expired` compares it with the time stamps of the pending sequences, `start_fragment` /
+`add_fragment` stamp the sequence they touch with it (the code reads the clock a second time there, microseconds later;
+the model uses one reading per frame). A history is a list of `(now, body)` pairs.
 
 Every slice / index expression of the Rust code is a conditional `panic` outcome here (there is none left on the
-receive path after fix 2a5c554 and the fragment-header fix: `&data[1..]` sits behind `!data.is_empty()`,
-`flags[i / 2]` behind `i < n` with `flags.len() = n / 2 + 1`; the decoder's one site is `DErr.panic`).
+receive path after fix 2a5c554 and the fragment-header fix: `&data[1..]` sits behind `!data.is_empty()`; the
+`flags[..]` sites of the header parser are `DErr.panic` in `DistHeader.parseRefs`/`parseHeader` and proved unreachable,
+the decoder's one site is `DErr.panic`).
 Core Lean only (linked into the driver).
 -/
 namespace Edp.Recv
 open Edp
 
-/-- `AtomCache`: `HashMap<u8, Atom>`; an insertion shadows the older entry of the same index -/
-abbrev Cache := List (Nat × Bytes)
+/-- `AtomCache` (decoder.rs): the model of property C14 -/
+abbrev Cache := DistHeader.Cache
 
 /-- the state `receive_message` reads and writes -/
 structure St where
   cache : Cache
   asm : Frag.Assembler
 
-/-- `Connection::new`: empty cache, `FragmentAssembler::new()` (30 s timeout, never consulted) -/
-def St.init : St := { cache := [], asm := Frag.Assembler.new 30000 }
+/-- `Connection::new`: `AtomCache::new()`, `FragmentAssembler::new()` (`DEFAULT_FRAGMENT_TIMEOUT`, read from the source) -/
+def St.init : St := { cache := {}, asm := Frag.Assembler.default }
 
 /-- what one call returns for the frame that ends it -/
 inductive Res where
@@ -62,77 +71,6 @@ def decodeTrailing (x : Ext) (data : Bytes) : Except DErr (Term × Bytes) :=
   match data with
   | [] => .error .err
   | v :: r => if v != 131 then .error .err else dec x {} (fuelFor x data) 0 r
-
-/-- the 4-bit field of reference `i` in the flag bytes (`flags[i / 2]`, low nibble for even `i`) -/
-def flagNibble (flags : Bytes) (i : Nat) : Nat :=
-  let b := (flags.getD (i / 2) 0).toNat
-  if i % 2 = 0 then b % 16 else b / 16 % 16
-
-/-- the `for i in 0..num_atom_cache_refs` loop of `parse_dist_header_with_cache`: `k` references left, `i` the current one.
-The cache is `&mut`: what was inserted before an error stays inserted. -/
-def refsLoop (flags : Bytes) (long : Bool) : Nat → Nat → Cache → Bytes → Cache × Except DErr Bytes
-  | 0, _, c, bs => (c, .ok bs)
-  | k+1, i, c, bs =>
-    match rdU 1 bs with
-    | .error e => (c, .error e)
-    | .ok (idx, r) =>
-      if 8 ≤ flagNibble flags i then
-        match rdU (if long then 2 else 1) r with
-        | .error e => (c, .error e)
-        | .ok (len, r1) =>
-          match takeE len r1 with
-          | .error e => (c, .error e)
-          | .ok (txt, r2) =>
-            if validUtf8 txt then refsLoop flags long k (i + 1) ((idx, txt) :: c) r2 else (c, .error .err)
-      else refsLoop flags long k (i + 1) c r
-
-/-- `parse_dist_header_with_cache` up to (not including) the final `parse_term`: input after `131, 68`;
-returns the cache and the bytes where the control term starts -/
-def parseDistHeader (c : Cache) (bs : Bytes) : Cache × Except DErr Bytes :=
-  match rdU 1 bs with
-  | .error e => (c, .error e)
-  | .ok (n, r) =>
-    if n = 0 then (c, .ok r) else
-    match takeE (n / 2 + 1) r with
-    | .error e => (c, .error e)
-    | .ok (flags, r1) =>
-      let last := (flags.getD (n / 2) 0).toNat
-      let long := if n % 2 = 0 then last % 2 = 1 else last / 16 % 2 = 1
-      refsLoop flags long n 0 c r1
-
-/-- `parse_versioned_term_with_cache` after the version byte: the tag decides between the distribution header (which
-writes the cache) and an ordinary term -/
-def firstTerm (x : Ext) (fuel : Nat) (c : Cache) (tag : UInt8) (r1 : Bytes) : Cache × DRes :=
-  if tag = 68 then
-    match parseDistHeader c r1 with
-    | (c1, .error e) => (c1, .error e)
-    | (c1, .ok body) => (c1, dec x { cache := c1 } fuel 0 body)
-  else (c, dec x { cache := c } fuel 0 (tag :: r1))
-
-/-- the rest of `decode_with_atom_cache`: if bytes remain after the first term, the payload term with the same cache, after
-which nothing may remain (`DecodeError::TrailingData`) -/
-def secondTerm (x : Ext) (fuel : Nat) (c1 : Cache) (first : DRes) : Except DErr (Term × Option Term) :=
-  match first with
-  | .error e => .error e
-  | .ok (t, []) => .ok (t, none)
-  | .ok (t, b :: rest) =>
-    match dec x { cache := c1 } fuel 0 (b :: rest) with
-    | .error e => .error e
-    | .ok (p, []) => .ok (t, some p)
-    | .ok (_, m :: more) => .error (.trailing (m :: more).length)
-
-/-- `decoder::decode_with_atom_cache(data, &mut cache)`: `parse_versioned_term_with_cache`, then the optional payload
-term with the same cache, then the trailing-data check. The cache comes back whatever the outcome. -/
-def decodeWithAtomCache (x : Ext) (c : Cache) (data : Bytes) : Cache × Except DErr (Term × Option Term) :=
-  match data with
-  | [] => (c, .error .err)
-  | v :: r0 =>
-    if v != 131 then (c, .error .err) else
-    match r0 with
-    | [] => (c, .error .err)
-    | tag :: r1 =>
-      ((firstTerm x (fuelFor x data) c tag r1).1,
-        secondTerm x (fuelFor x data) (firstTerm x (fuelFor x data) c tag r1).1 (firstTerm x (fuelFor x data) c tag r1).2)
 
 /-- `decoder::decode_fragment_header`: `131, 69, seq:u64, fragment_id:u64, num_atom_cache_refs:u8`, the rest -/
 def decodeFragmentHeader (data : Bytes) : Except DErr ((Nat × Nat × Nat) × Bytes) :=
@@ -188,7 +126,7 @@ def decodeCompleteFragment (x : Ext) (tbl : Control.Table) (c : Cache) (data : B
   match data with
   | a :: b :: _ =>
     if a = 131 ∧ b = 68 then
-      ((decodeWithAtomCache x c data).1, finishE tbl (decodeWithAtomCache x c data).2)
+      ((DistHeader.decodeWithAtomCache x c data).1, finishE tbl (DistHeader.decodeWithAtomCache x c data).2)
     else (c, finishE tbl (plainTerm x data))
   | _ => (c, finishE tbl (plainTerm x data))
 
@@ -215,49 +153,60 @@ def deliver (x : Ext) (tbl : Control.Table) (s : St) (r : Frag.Assembler × Opti
 
 /-- the `131, 69` branch: `decode_fragment_header`; fragment id 0 is `Error::Protocol`; the version tag, DIST_HEADER and
 the reference count go back in front of the first fragment, which is handed to `start_fragment` without atom-cache data -/
-def recvFragHeader (x : Ext) (tbl : Control.Table) (s : St) (data : Bytes) : St × Option Res :=
+def recvFragHeader (x : Ext) (tbl : Control.Table) (now : Nat) (s : St) (data : Bytes) : St × Option Res :=
   match decodeFragmentHeader data with
   | .error e => (s, some (resOfDErr e))
   | .ok ((seq, fid, n), remaining) =>
     if fid = 0 then (s, some .err)
-    else deliver x tbl s (s.asm.startFragment 0 seq fid none (131 :: 68 :: UInt8.ofNat n :: remaining))
+    else deliver x tbl s (s.asm.startFragment now seq fid none (131 :: 68 :: UInt8.ofNat n :: remaining))
 
 /-- the `131, 70` branch: `decode_fragment_cont`; fragment id 0 is `Error::Protocol`; `add_fragment` -/
-def recvFragCont (x : Ext) (tbl : Control.Table) (s : St) (data : Bytes) : St × Option Res :=
+def recvFragCont (x : Ext) (tbl : Control.Table) (now : Nat) (s : St) (data : Bytes) : St × Option Res :=
   match decodeFragmentCont data with
   | .error e => (s, some (resOfDErr e))
   | .ok ((seq, fid), remaining) =>
     if fid = 0 then (s, some .err)
-    else deliver x tbl s (s.asm.addFragment 0 seq fid remaining)
+    else deliver x tbl s (s.asm.addFragment now seq fid remaining)
 
 /-- the `131, 68` branch: `decode_with_atom_cache(&data, &mut self.atom_cache)`, then `from_term` -/
 def recvHeader (x : Ext) (tbl : Control.Table) (s : St) (data : Bytes) : St × Option Res :=
-  ({ cache := (decodeWithAtomCache x s.cache data).1, asm := s.asm },
-    some (finishE tbl (decodeWithAtomCache x s.cache data).2))
+  ({ cache := (DistHeader.decodeWithAtomCache x s.cache data).1, asm := s.asm },
+    some (finishE tbl (DistHeader.decodeWithAtomCache x s.cache data).2))
 
-/-- one iteration of the loop of `Connection::receive_message` on the deframed body `data`:
+/-- `self.fragment_assembler.cleanup_expired()`: the first thing an iteration does with a frame it has read (the first
+half of `Frag.Assembler.onFrame`, the assembler's view of one received frame) -/
+def expire (now : Nat) (s : St) : St := { cache := s.cache, asm := (s.asm.cleanupExpired now).1 }
+
+/-- the rest of the iteration, on the deframed body `data`:
 `none` = `continue` (tick, or a fragment that does not complete its sequence), `some r` = the call returns `r` -/
-def recv (x : Ext) (tbl : Control.Table) (s : St) (data : Bytes) : St × Option Res :=
+def dispatch (x : Ext) (tbl : Control.Table) (now : Nat) (s : St) (data : Bytes) : St × Option Res :=
   match data with
   | [] => (s, none)
   | [a] =>
     if a = 112 then (s, some (passThroughBody x tbl [])) else (s, some .err)
   | a :: b :: rest =>
-    if a = 131 ∧ b = 69 then recvFragHeader x tbl s data
-    else if a = 131 ∧ b = 70 then recvFragCont x tbl s data
+    if a = 131 ∧ b = 69 then recvFragHeader x tbl now s data
+    else if a = 131 ∧ b = 70 then recvFragCont x tbl now s data
     else if a = 112 then (s, some (passThroughBody x tbl (b :: rest)))
     else if a = 131 ∧ b = 68 then recvHeader x tbl s data
     else (s, some .err)
 
+/-- one iteration of the loop of `Connection::receive_message` on the deframed body `data`, the clock reading `now` -/
+def recv (x : Ext) (tbl : Control.Table) (now : Nat) (s : St) (data : Bytes) : St × Option Res :=
+  dispatch x tbl now (expire now s) data
+
+/-- a frame as the connection meets it: the clock when it has been read, and its body -/
+abbrev TFrame := Nat × Bytes
+
 /-- the state after a list of frames (a panic ends the task; the state is then irrelevant) -/
-def after (x : Ext) (tbl : Control.Table) (s : St) : List Bytes → St
+def after (x : Ext) (tbl : Control.Table) (s : St) : List TFrame → St
   | [] => s
-  | f :: fs => after x tbl (recv x tbl s f).1 fs
+  | f :: fs => after x tbl (recv x tbl f.1 s f.2).1 fs
 
 /-- what each frame of a history makes the loop do: `none` = the loop goes on to the next frame, `some r` = a call returns `r` -/
-def outs (x : Ext) (tbl : Control.Table) (s : St) : List Bytes → List (Option Res)
+def outs (x : Ext) (tbl : Control.Table) (s : St) : List TFrame → List (Option Res)
   | [] => []
-  | f :: fs => (recv x tbl s f).2 :: outs x tbl (recv x tbl s f).1 fs
+  | f :: fs => (recv x tbl f.1 s f.2).2 :: outs x tbl (recv x tbl f.1 s f.2).1 fs
 
 /-- a panic is the last thing a task returns -/
 def cutPanic : List Res → List Res
@@ -267,7 +216,7 @@ def cutPanic : List Res → List Res
 
 /-- what successive `receive_message` calls return while the peer delivers `frames`: one entry per frame that ends a
 call; a panic is the last entry (the receiving task is gone) -/
-def recvAll (x : Ext) (tbl : Control.Table) (s : St) (frames : List Bytes) : List Res :=
+def recvAll (x : Ext) (tbl : Control.Table) (s : St) (frames : List TFrame) : List Res :=
   cutPanic ((outs x tbl s frames).filterMap id)
 
 /-- the body handling of `Connection::receive_message_from_read_half` (a zero length never gets here: `continue`):
